@@ -484,6 +484,13 @@ pub fn dag_misc() -> DocSpec {
         next = b.add(Val::dict(vec![("Type", Val::name("Font")), ("Subtype", Val::name("Type0")), ("BaseFont", Val::name("Dag")), ("Encoding", Val::name("Identity-H")), ("DescendantFonts", Val::Arr(vec![Val::r(next), Val::r(next)]))]));
     }
     let font0 = next;
+    // the same DAG with every descendant named through an object that is a bare reference
+    let mut next = cid;
+    for _ in 0..depth {
+        let via = b.add(Val::Ref(next, 0));
+        next = b.add(Val::dict(vec![("Type", Val::name("Font")), ("Subtype", Val::name("Type0")), ("BaseFont", Val::name("Dag")), ("Encoding", Val::name("Identity-H")), ("DescendantFonts", Val::Arr(vec![Val::r(via), Val::r(via)]))]));
+    }
+    let font1 = next;
     // appearance dictionary
     let ap_stream = b.add_stream(vec![("Type".into(), Val::name("XObject")), ("Subtype".into(), Val::name("Form")), ("BBox".into(), rect(0, 0, 10, 10))], b"0 0 m 1 1 l S".to_vec());
     let mut level = ap_stream;
@@ -518,7 +525,7 @@ pub fn dag_misc() -> DocSpec {
             ("Type", Val::name("Page")),
             ("Parent", Val::r(pages)),
             ("MediaBox", rect(0, 0, 100, 100)),
-            ("Resources", Val::dict(vec![("Font", Val::dict(vec![("F1", Val::r(font0))])), ("XObject", Val::dict(vec![("Im1", Val::r(g))]))])),
+            ("Resources", Val::dict(vec![("Font", Val::dict(vec![("F1", Val::r(font0)), ("F2", Val::r(font1))])), ("XObject", Val::dict(vec![("Im1", Val::r(g))]))])),
             ("Annots", Val::Arr(vec![Val::r(annot)])),
         ]),
     );
